@@ -1,7 +1,8 @@
 /-
 Model of the type-system descriptor codec (`cassis/typesystem.py`: `TypeSystemSerializer`,
 `TypeSystemDeserializer`) at the level of abstract descriptors (the list of `typeDescription` records;
-XML text, namespaces and escaping are lxml's business).
+XML text, namespaces and escaping are lxml's business).  An abstract descriptor carries every element text exactly
+as it stands in the XML (not trimmed); the reader strips each of them (`normalize`).
 -/
 import CassisModel.Model.Json
 
@@ -51,8 +52,17 @@ def toDescriptor (K : Consts) (ts : TypeSystem) : Except Err Descriptor := do
   let user := (Json.sortByName (getTypes K ts false)).filter (fun t => t.name != DOCUMENT_ANNOTATION)
   pure (pre ++ user.map renderType)
 
-/-- `_get_elem_as_str`: surrounding whitespace is stripped (`None` stays `None`; an empty element has text `None`) -/
-def strip (s : String) : String := s.trimAscii.toString
+/-- `_get_elem_as_str`: surrounding whitespace is stripped (`None` stays `None`; an empty element has text `None`);
+    applied to EVERY text the reader takes from the descriptor: type name, description, supertype name, feature name,
+    range type name, feature description, element type.  `str.strip()` without argument removes the characters with
+    `str.isspace()`: the ASCII blanks and control characters U+0009–U+000D, U+001C–U+001F, and the Unicode spaces
+    (NEL U+0085, no-break space U+00A0, U+1680, U+2000–U+200A, U+2028, U+2029, U+202F, U+205F, U+3000) — `isPySpace` -/
+def isPySpace (c : Char) : Bool :=
+  let n := c.toNat
+  (0x09 ≤ n && n ≤ 0x0D) || (0x1C ≤ n && n ≤ 0x20) || n == 0x85 || n == 0xA0 || n == 0x1680 ||
+  (0x2000 ≤ n && n ≤ 0x200A) || n == 0x2028 || n == 0x2029 || n == 0x202F || n == 0x205F || n == 0x3000
+
+def strip (s : String) : String := ((s.toSlice.dropWhile isPySpace).dropEndWhile isPySpace).copy
 
 def normDescr (d : Option String) : Option String :=
   match d with
@@ -64,15 +74,28 @@ def normDescr (d : Option String) : Option String :=
 def creationOrder (d : Descriptor) : Except Err (List String) :=
   Json.toposort (d.map (fun t => ({ name := t.name, super := t.super } : Json.JType)))
 
-/-- later declarations of a name replace earlier ones (`types[type_name] = …`), features accumulate;
-    descriptions are whitespace-trimmed -/
-def normalize (d0 : Descriptor) : Descriptor :=
+/-- what the reader makes of the texts of one `featureDescription`: name, range type, element type and description
+    all go through `_get_elem_as_str` (`multipleReferencesAllowed` is compared unstripped with `"true"`/`"false"`,
+    which is the text layer's business) -/
+def stripF (f : FDesc) : FDesc :=
+  { f with name := strip f.name, descr := normDescr f.descr, range := strip f.range, elem := f.elem.map strip }
+
+/-- … and of one `typeDescription`: name, description, supertype name, and every feature -/
+def stripT (t : TDesc) : TDesc :=
+  { name := strip t.name, descr := normDescr t.descr, super := strip t.super, feats := t.feats.map stripF }
+
+/-- later declarations of a name replace earlier ones (`types[type_name] = …`), features accumulate
+    (`features[type_name].append(f)`) -/
+def groupByName (d0 : Descriptor) : Descriptor :=
   let names := (d0.map (·.name)).eraseDups
   names.filterMap (fun n =>
     match (d0.filter (fun t => t.name == n)).getLast? with
-    | some t => some { t with descr := normDescr t.descr,
-                              feats := (d0.filter (fun u => u.name == n)).flatMap (fun u => u.feats.map (fun f => { f with descr := normDescr f.descr })) }
+    | some t => some { t with feats := (d0.filter (fun u => u.name == n)).flatMap (·.feats) }
     | none => none)
+
+/-- the parsing loop: every text is whitespace-stripped as it is read, THEN the declarations are keyed by the
+    (stripped) type name — `"x.A"` and `" x.A "` are one type, a feature `" self "` is the feature `self` -/
+def normalize (d0 : Descriptor) : Descriptor := groupByName (d0.map stripT)
 
 /-- supertypes and feature types must be predefined or declared (`types[...]` raises `KeyError`) -/
 def featsResolvable (ok : String → Bool) : List FDesc → Bool
